@@ -118,7 +118,7 @@ def handleStats (focus : String) (c : Case) : String := Id.run do
     -- a numerically singular H^T H may be inverted by one elimination and rejected by the other;
     -- everything else is a disagreement
     let illc := (match modelStats with | some (.error .matrixInversion) => true | _ => false) ||
-      (term.wasSuccessful && coefImpl.isSome && n > m + p && !(1e3 * u * kapEarly * kapEarly ≤ 5e-2))
+      (term.wasSuccessful && coefImpl.isSome && n > m + p && !(1e2 * u * kapEarly * kapEarly * kapEarly ≤ 5e-2))
     if !illc then
       acc := { acc with corr := acc.corr.push s!"statistics-{if hasStats then "present" else "absent"}-model-says-{tagOut}" }
   if (kind == "ok") != hasStats then
@@ -190,19 +190,28 @@ def handleStats (focus : String) (c : Case) : String := Id.run do
   -- ---------- C13
   if wantsC13 then
     let cmaxv := covI.maxAbs
-    let tolCov := 1e3 * u * kapH * kapH * cmaxv * d.toFloat + 1e-300
+    -- nalgebra's closed-form inverse for d ≤ 4 (cofactors) loses about κ(HᵀH)^1.5 = κ(H)³ (measured: 8.7e-5
+    -- relative error at κ(H) = 2.2e4 in f64), so the bound is 1e2·u·κ(H)³·d
+    let invBound := 1e2 * u * kapH * kapH * kapH * d.toFloat
+    let tolCov := invBound * cmaxv + 1e-300
     if tolCov ≤ 5e-2 * cmaxv then
       acc := { acc with compared := acc.compared + 3 }
       -- cov · (HᵀH) / σ̂² = 1
       let prod := covI.mul HtH
       let idErr := (FMat.ofFn d d fun i j => prod.get i j / chi2I - (if i == j then 1.0 else 0.0)).maxAbs
-      if !(idErr ≤ 1e3 * u * kapH * kapH * d.toFloat) then
+      if !(idErr ≤ invBound) then
         acc := { acc with mon := acc.mon.push s!"cov·HᵀH/σ²≠1:{fmtF idErr}(κ(H)={fmtF kapH})" }
       let asym := (covI.sub covI.transpose).maxAbs
       if !(asym ≤ tolCov) then acc := { acc with mon := acc.mon.push s!"covariance-not-symmetric:{fmtF asym}" }
       if let some (.ok ms) := modelStats then
-        let dC := maxDiff (FMat.ofMat ms.covariance).a covI.a
-        if !(dC ≤ tolCov) then acc := { acc with corr := acc.corr.push s!"covariance:maxdiff={fmtF dC}>tol={fmtF tolCov}" }
+        -- compare (HᵀH)⁻¹ = cov/χ² on both sides: the accuracy of χ² itself (cancellation in the
+        -- residual, large in f32 for heavily weighted data) is C12's business
+        let mB := (FMat.ofMat ms.covariance).a.map (· / ms.reducedChi2)
+        let iB := covI.a.map (· / chi2I)
+        let bmax := arrMaxAbs iB
+        let tolB := invBound * bmax + 1e-300
+        let dC := maxDiff mB iB
+        if !(dC ≤ tolB) then acc := { acc with corr := acc.corr.push s!"covariance/chi2:maxdiff={fmtF dC}>tol={fmtF tolB}" }
     else acc := { acc with skips := acc.skips + 1 }
     acc := { acc with compared := acc.compared + 4 }
     -- a numerically singular HᵀH (non-identifiable model) has no meaningful inverse: the sign of the
@@ -227,7 +236,7 @@ def handleStats (focus : String) (c : Case) : String := Id.run do
     if tolCov ≤ 5e-2 * cmaxv then
       for i in [0:d] do
         for j in [0:d] do
-          if !((corrI.get i j).abs ≤ 1.0 + 1e3 * u * kapH * kapH) then
+          if !((corrI.get i j).abs ≤ 1.0 + invBound) then
             acc := { acc with mon := acc.mon.push s!"|correlation({i},{j})|>1" }
     if let some (.ok ms) := modelStats then
       let mc := FMat.ofMat (ms.correlation floatOps)
@@ -246,7 +255,8 @@ def handleStats (focus : String) (c : Case) : String := Id.run do
         q := q + Jf.get i a * inner
       return q.sqrt
     let qscale := arrMaxAbs ucs
-    let wellCond := 1e3 * u * kapH * kapH * d.toFloat ≤ 5e-2
+    let invBound := 1e2 * u * kapH * kapH * kapH * d.toFloat
+    let wellCond := invBound ≤ 5e-2
     let mut prevBand : Option (Array Float) := none
     for l in c.body do
       if l.getD 0 "" == "st" && l.getD 1 "" == "band" then
@@ -265,7 +275,7 @@ def handleStats (focus : String) (c : Case) : String := Id.run do
               acc := { acc with mon := acc.mon.push s!"band-not-finite-nonneg-p={fmtF pr}" }
             let t := tQuantileTwoSided pr dof
             let expect := ucs.map (· * t)
-            let tolB := (if dof ≤ 2 then 1e-9 else 3e-3) * t * qscale + 1e3 * u * kapH * kapH * t * qscale + 1e-300
+            let tolB := (if dof ≤ 2 then 1e-9 else 3e-3) * t * qscale + invBound * t * qscale + 1e-300
             if tolB ≤ 5e-2 * t * qscale then
               let dB := maxDiff expect band
               if !(dB ≤ tolB) then
